@@ -224,6 +224,43 @@ class C04(Plan):
         return out
 
 
+def c04_miri(self, tier, wd):
+    """thorough tier: a seeded sample of the case space with GENUINELY uninitialised unoccupied slots,
+    interpreted by Miri: any read of an unoccupied slot by the crate is reported as undefined behaviour"""
+    import os
+    import engine as E
+    if tier == "quick":
+        return []
+    g = Gen(int(os.environ.get("VERIF_SEED", "1")) + 17)
+    ns = [0, 1, 2, 3]
+    for fam in (fam_push, fam_pop, fam_index1, fam_bulk, fam_accessors, fam_constructors, fam_mut_views,
+                fam_more_iters, fam_debug_views,
+                lambda c, N, sz: fam_drain(c, N, sz, scripts_shapes),
+                lambda c, N, sz: ["hash", "debug", "clone_keep", "to_vec", "eq_slice slice " + c.es(sz, default_vals(sz)),
+                                  "make_contiguous -", "as_mut_slices -", "into_iter n,b", "swap 0 %d" % max(sz - 1, 0)]):
+        g.one_step(ns, [5], fam)
+    for k in (0, 1, 2):
+        g.one_step([2, 3], [5], fam_destroying, fault="drop:%d" % k, suffix=("push_back 9001:5", "new"))
+        g.one_step([2, 3], [5], fam_usercode("clone"), fault="clone:%d" % k, suffix=("push_back 9001:5", "new"))
+    random_histories(g, tier, 40, [3, 4, 5, 8], 30)
+    for c in g.cases:
+        c.junk = 5
+    r = g.rng
+    sample = [c for c in g.cases if r.chance(640, max(len(g.cases), 640))]
+    ran, failures = E.run_miri(sample, True, os.path.join(wd, "miri"))
+    self.miri = {"cases_sampled": len(sample), "cases_interpreted": ran, "failures": len(failures)}
+    if failures:
+        c, msg = failures[0]
+        return [("Miri: no read of a genuinely uninitialised slot on %d sampled cases" % len(sample), False,
+                 {"message": msg, "case": c.text(True) if c else None}, c is None)]
+    if ran < len(sample):
+        return [("Miri interpreted only %d of %d sampled cases" % (ran, len(sample)), False, {"ran": ran}, True)]
+    return [("Miri: no undefined behaviour (in particular no read of an uninitialised slot) on %d sampled cases" % ran, True, "")]
+
+
+C04.extra_obligations = c04_miri
+
+
 def E_erase(r):
     import engine
     return engine.erase_phys(r) if r else r
